@@ -3,6 +3,7 @@
      F1  returned flag = true      -> a local or global bad event is in its own segment
      F2  a local bad event in segment -> returned flag = true
      F3  aborted' = aborted || an aborting event is in the segment            *)
+From Coq Require Import Btauto.
 From BV Require Import Base Status Rollup Runner.
 From BVGen Require Import StatusTable.
 
@@ -35,6 +36,7 @@ Definition abort_ev (e : event) : bool :=
   match e with
   | EStep k _ _ _ => step_aborts k
   | EHook h _ r => r && is_all_hook h
+  | EAbort _ _ => true
   | _ => false
   end.
 
@@ -63,31 +65,40 @@ Ltac bsimp :=
           ?orb_true_l, ?andb_false_r, ?andb_true_r, ?andb_false_l, ?andb_true_l in * ).
 
 (* ------------------------------------------------------------------ hooks *)
+(* the hook is called and calls context.abort() *)
+Definition hook_aborts (cfg : config) (h : hookname) (k : nat) : bool :=
+  negb (c_dry cfg) && c_hooks cfg h && c_aborts cfg h k.
+
 Lemma run_hook_spec cfg st h k st' r ev :
   run_hook cfg st h k = (st', r, ev) ->
   anyb gbad ev = r /\ anyb lbad ev = false /\
-  anyb abort_ev ev = r && is_all_hook h /\
-  aborted st' = aborted st || (r && is_all_hook h).
+  anyb abort_ev ev = r && is_all_hook h || hook_aborts cfg h k /\
+  aborted st' = aborted st || (r && is_all_hook h || hook_aborts cfg h k).
 Proof.
-  unfold run_hook. destruct (c_dry cfg || negb (c_hooks cfg h)).
+  unfold run_hook, hook_aborts. destruct (c_dry cfg) eqn:Hd; cbn [orb negb andb].
   - intros E; inversion E; subst. cbn. rewrite orb_false_r. auto.
-  - destruct (c_faults cfg h k); intros E; inversion E; subst; cbn.
-    + rewrite !orb_false_r. unfold add_cleanups. destruct (stack st); cbn; auto.
-    + rewrite !orb_false_r. unfold add_cleanups. destruct (stack st); cbn; auto.
+  - destruct (c_hooks cfg h) eqn:Hh; cbn [negb andb].
+    + destruct (c_faults cfg h k), (c_aborts cfg h k); intros E; inversion E; subst; cbn;
+        rewrite ?orb_false_r, ?orb_true_r; unfold add_cleanups; destruct (stack st); cbn;
+        rewrite ?orb_false_r, ?orb_true_r; auto.
+    + intros E; inversion E; subst. cbn. rewrite orb_false_r. auto.
 Qed.
+
+Fixpoint tags_abort (cfg : config) (h : hookname) (tags : list nat) : bool :=
+  match tags with [] => false | t :: r => hook_aborts cfg h t || tags_abort cfg h r end.
 
 Lemma run_tag_hooks_spec cfg h (Hh : is_all_hook h = false) tags : forall st st' r ev,
   run_tag_hooks cfg st h tags = (st', r, ev) ->
-  anyb gbad ev = r /\ anyb lbad ev = false /\ anyb abort_ev ev = false /\
-  aborted st' = aborted st.
+  anyb gbad ev = r /\ anyb lbad ev = false /\ anyb abort_ev ev = tags_abort cfg h tags /\
+  aborted st' = aborted st || tags_abort cfg h tags.
 Proof.
-  induction tags as [|t tags IH]; intros st st' r ev; cbn [run_tag_hooks].
-  - intros E; inversion E; subst. cbn. auto.
+  induction tags as [|t tags IH]; intros st st' r ev; cbn [run_tag_hooks tags_abort].
+  - intros E; inversion E; subst. cbn. rewrite orb_false_r. auto.
   - destruct (run_hook cfg st h t) as [[st1 b1] e1] eqn:E1.
     destruct (run_tag_hooks cfg st1 h tags) as [[st2 b2] e2] eqn:E2.
     intros E; inversion E; subst.
     apply run_hook_spec in E1 as (A1 & A2 & A3 & A4). apply IH in E2 as (B1 & B2 & B3 & B4).
-    rewrite Hh in *. bsimp. rewrite A1, A2, A3, B1, B2, B3, B4, A4. bsimp. auto.
+    rewrite Hh in *. bsimp. rewrite A1, A2, A3, B1, B2, B3, B4, A4. bsimp. rewrite orb_assoc. auto.
 Qed.
 
 (* ------------------------------------------------------------------ Step.run *)
@@ -112,15 +123,15 @@ Proof.
   - destruct (run_hook cfg st1 HAfterStep id) as [[st3 ra] ea] eqn:E3.
     apply run_hook_spec in E3 as (B1 & B2 & B3 & B4). cbn [is_all_hook] in *. bsimp.
     intros E; inversion E; subst; clear E. bsimp. cbn [lbad gbad abort_ev]. bsimp.
-    rewrite A1, A2, A3, B2, B3, B4, A4. bsimp. repeat split; auto.
+    rewrite A1, A2, A3, B2, B3, B4, A4. bsimp. repeat split; auto; try btauto.
   - match goal with |- context [run_hook ?c ?stx HAfterStep id] =>
       destruct (run_hook c stx HAfterStep id) as [[st3 ra] ea] eqn:E3 end.
     apply run_hook_spec in E3 as (B1 & B2 & B3 & B4). cbn [is_all_hook] in *. bsimp.
     destruct ra; intros E; inversion E; subst; clear E; bsimp; cbn [lbad gbad abort_ev]; bsimp;
     rewrite A1, A2, A3, B1, B2, B3, B4; cbn [aborted set_aborted]; rewrite aborted_add_cleanups, A4; bsimp;
     rewrite <- (step_outcome_failed wip k Hk).
-    + repeat split; auto.
-    + repeat split; auto.
+    + repeat split; auto; try btauto.
+    + repeat split; auto; try btauto.
 Qed.
 
 Lemma run_step_spec cfg st wip scid s st' status skip ev :
@@ -262,6 +273,7 @@ Proof.
     + intros H. repeat (apply orb_true_iff in H as [H|H]); try discriminate.
       * rewrite (S2 H). reflexivity.
       * rewrite H. bsimp. reflexivity.
+    + btauto.
   - match goal with |- context [scenario_steps ?a ?b ?c ?d ?e ?f ?g ?h] =>
       destruct (scenario_steps a b c d e f g h) as [[[st2 l2] statuses] ev_steps] eqn:E3 end.
     unfold scenario_steps in E3.
@@ -543,7 +555,7 @@ Proof.
   fold (anyb hook_raised) (anyb is_undef_event).
   assert (G : forall l, existsb hook_raised l || existsb is_undef_event l = existsb gbad l).
   { induction l as [|e l IH]; [reflexivity|]. cbn [existsb]. rewrite <- IH.
-    destruct e as [h k [|]| | | |]; cbn; try reflexivity;
+    destruct e as [h k [|]| | | | |]; cbn; try reflexivity;
       destruct (existsb hook_raised l), (existsb is_undef_event l); reflexivity. }
   assert (G' : forall l, existsb hook_raised l || existsb is_undef_event l = false -> existsb gbad l = false)
     by (intros l; now rewrite G).
@@ -551,7 +563,8 @@ Proof.
   rewrite <- !G in *. apply orb_false_iff in D2 as [D2a D2b]. rewrite D2a, D2b.
   destruct anyf, (existsb lbad e2), (existsb hook_raised e1), (existsb hook_raised e2),
     (existsb hook_raised e3), (existsb is_undef_event e1), (existsb is_undef_event e2),
-    (existsb is_undef_event e3), (existsb abort_ev e2), (cleanups_raise root);
+    (existsb is_undef_event e3), (existsb abort_ev e2), (cleanups_raise root),
+    (hook_aborts cfg HBeforeAll 0), (hook_aborts cfg HAfterAll 0);
     cbn in *; try reflexivity;
     try (specialize (B1 eq_refl); discriminate); try (specialize (B2 eq_refl); discriminate).
 Qed.
